@@ -324,6 +324,11 @@ def f_int_arith(c):
             return lanewise_fn(c, t, lambda i: '%s(%s, %s, %d)' % (sp, t.lane(c.a(0), i), t.lane(c.a(1), i), t.bits),
                                ['C01'], 'int_' + c.name, '({0} %s {1})' % op, heavy=(sp == 'spec_mul' and t.bits >= 32),
                                flags=mul_flags(t, sp))
+    if c.kind == 'function' and c.name == 'operator-' and len(c.P) == 1 and c.PT[0].kind == 'vec' and c.PT[0].isint and not c.P[0]['ref'] \
+            and c.RT and c.RT.kind == 'vec' and c.RT.isint and c.RT.W == c.PT[0].W and c.RT.bits == c.PT[0].bits:
+        t = c.PT[0]
+        ens = [('int unary minus lane %d' % i, eq_lane(c.RT, RV, i, 'spec_neg(%s, %d)' % (t.lane(c.a(0), i), t.bits))) for i in range(t.W)]
+        return Contract('int_unary_minus_free', ['C01'], ensures=ens, assigns=[], cxx='(-{0})')
     if c.kind == 'method' and c.name in ('operator-', 'operator+') and len(c.P) == 0 and c.OT and c.OT.kind == 'vec' and c.OT.isint:
         t = c.OT
         if c.RT.ct != t.ct:
@@ -364,6 +369,14 @@ def cmp_expr(t, op, a, b, i):
 
 @family
 def f_cmp(c):
+    if c.kind == 'method' and c.name in CMP and len(c.P) == 1 and c.OT and c.OT.kind == 'vec' and c.PT[0].ct == c.OT.ct \
+            and c.RT and c.RT.kind == 'mask' and c.RT.W == c.OT.W:
+        # member form  mask Vector::operator==(Vector rhs) const
+        t = c.OT
+        op = CMP[c.name]
+        ens = [('mask well-formed', c.RT.wf(RV))]
+        ens += [('cmp %s lane %d' % (op, i), '%s == %s' % (c.RT.view(RV, i), cmp_expr(t, op, '(*this)', c.a(0), i))) for i in range(t.W)]
+        return Contract('cmp_' + c.name, ['C02'], ensures=ens, assigns=[], cxx='({this} %s {0})' % op)
     if c.kind == 'function' and c.name in CMP and len(c.P) == 2:
         t = same_vec_params(c, 2)
         if t and t.kind == 'vec' and c.RT.kind == 'mask' and c.RT.W == t.W:
@@ -445,6 +458,11 @@ def f_mask(c):
             ens += [('mask %s lane %d' % (c.name[8:], i), '%s == (%s %s %s)' % (t.view(this, i), t.view_old(this, i), op, t.view(c.a(0), i))) for i in range(t.W)]
             ens.append(('returns *this', '%s == this' % RV))
             return Contract('mask_' + c.name, ['C03'], requires=pre, ensures=ens, assigns=['*this'], cxx='({this} %s {0})' % c.name[8:])
+        if c.name in ('operator==', 'operator!=') and len(c.P) == 1 and c.PT[0].ct == t.ct and c.RT.kind == 'bool':
+            b = c.a(0)
+            alleq = ' && '.join('(%s == %s)' % (t.view(this, i), t.view(b, i)) for i in range(t.W))
+            e = '%s == (_Bool)(%s)' % (RV, alleq) if c.name == 'operator==' else '%s == (_Bool)!(%s)' % (RV, alleq)
+            return Contract('mask_' + c.name, ['C03'], requires=pre + [t.wf(b)], ensures=[('mask %s' % c.name[8:], e)], cxx='({this} %s {0})' % c.name[8:])
         if c.name == 'operator!' and len(c.P) == 0 and c.RT.ct == t.ct:
             ens = [('mask well-formed', c.RT.wf(RV))] + [('mask ! lane %d' % i, '%s == !%s' % (t.view(RV, i), t.view(this, i))) for i in range(t.W)]
             return Contract('mask_not', ['C03'], requires=pre, ensures=ens, cxx='(!{this})')
@@ -590,6 +608,9 @@ def f_bitwise_shift(c):
         if len(c.P) == 1 and c.targs and isinstance(c.targs[0], int) and t.kind == 'vec':
             S = c.targs[0]
             return lanewise_fn(c, t, lambda i: '%s(%s, %dull, %d)' % (sp, t.lane(c.a(0), i), S, t.bits), props, c.name + '_const', 'avel::%s<%du>({0})' % (c.name, S))
+        if len(c.P) == 2 and c.P[1]['ctype'] in ('uint32_t', 'uint64_t', 'unsigned long long'):
+            amt = '(uint64_t)(%s %% %d)' % (c.a(1), t.bits)
+            return lanewise_fn(c, t, lambda i: '%s(%s, %s, %d)' % (sp, t.lane(c.a(0), i), amt, t.bits), props, c.name + '_scalar', 'avel::%s({0}, {1})' % c.name)
         if len(c.P) == 2 and c.P[1]['ctype'] == 'long long':
             # "by the amount modulo the bit width, for any amount": the amount is taken modulo bits as a mathematical integer
             amt = '(uint64_t)(((%s %% %d) + %d) %% %d)' % (c.a(1), t.bits, t.bits, t.bits)
@@ -810,9 +831,9 @@ def f_memory(c):
         if len(P) == 3 and P[2]['ctype'] == 'uint32_t':
             n_expr, nn, cxx = 'nondet_u32()', P[2]['name'], 'avel::%s({0}, {1}, {2})' % name
             args = ['buf', 'a1', 'n_in']
-        elif len(P) == 2 and c.targs and isinstance(c.targs[0], int):
-            N = c.targs[0]
-            n_expr, nn, cxx = '%du' % N, '%du' % N, 'avel::%s<%d>({0}, {1})' % (name, N)
+        elif len(P) == 2 and ((c.targs and isinstance(c.targs[0], int)) or not c.targs):
+            N = c.targs[0] if c.targs else t.W      # the non-template overload stores the whole vector
+            n_expr, nn, cxx = '%du' % N, '%du' % N, ('avel::%s<%d>({0}, {1})' % (name, N) if c.targs else 'avel::%s({0}, {1})' % name)
             args = ['buf', 'a1']
         else:
             return None
@@ -881,8 +902,8 @@ def f_gather_scatter(c):
         p, v, idx = P[0]['name'], c.a(1), c.a(2)
         if len(P) == 4 and P[3]['ctype'] == 'uint32_t':
             nn, n_expr, args, cxx = P[3]['name'], 'nondet_u32()', ['buf', 'a1', 'a2', 'n_in'], 'avel::scatter({0}, {1}, {2}, {3})'
-        elif len(P) == 3 and c.targs and isinstance(c.targs[0], int):
-            N = c.targs[0]
+        elif len(P) == 3 and ((c.targs and isinstance(c.targs[0], int)) or not c.targs):
+            N = c.targs[0] if c.targs else t.W
             nn, n_expr, args, cxx = '%du' % N, '%du' % N, ['buf', 'a1', 'a2'], 'avel::scatter<%d>({0}, {1}, {2})' % N
         else:
             return None
@@ -1053,6 +1074,14 @@ def f_float_arith(c):
             nonan = '(!spec_isnan%s(%s) && !spec_isnan%s(%s))' % (fsuf(t), x, fsuf(t), y)
             ens.append(('float %s lane %d (non-NaN operands)' % (nm, i), '!%s || %s(%s, %s, %s)' % (nonan, ok, t.lane(RV, i), x, y)))
         return Contract('float_' + nm, ['C07'] + sc, ensures=ens, cxx='avel::%s({0}, {1})' % nm)
+    if nm == 'minmax' and len(c.P) == 2 and c.PT[1].ct == t.ct and re.match(r'^Arr_.*_2$', c.fn['ret']):
+        ens = []
+        for i in range(t.W):
+            x, y = t.lane(a0, i), t.lane(c.a(1), i)
+            nonan = '(!spec_isnan%s(%s) && !spec_isnan%s(%s))' % (fsuf(t), x, fsuf(t), y)
+            ens.append(('float minmax[0] lane %d (non-NaN operands)' % i, '!%s || spec_fmin_ok%s(%s, %s, %s)' % (nonan, fsuf(t), t.lane('(%s)._M_elems[0]' % RV, i), x, y)))
+            ens.append(('float minmax[1] lane %d (non-NaN operands)' % i, '!%s || spec_fmax_ok%s(%s, %s, %s)' % (nonan, fsuf(t), t.lane('(%s)._M_elems[1]' % RV, i), x, y)))
+        return Contract('float_minmax', ['C07'] + sc, ensures=ens, cxx='avel::minmax({0}, {1})')
     if nm == 'clamp' and len(c.P) == 3 and c.RT.ct == t.ct:
         ens = []
         for i in range(t.W):
@@ -1207,6 +1236,46 @@ def f_denominator(c):
                 k.denom['broadcast'] = (bc, sc)
                 k.extra_roots += [bc, sc]
         return k
+    if c.kind == 'function' and c.name in ('operator/=', 'operator%=') and len(c.P) == 2 and c.P[0]['ref'] and c.P[1]['ctype'].startswith('Denom_') and not c.P[1]['ref']:
+        di = denom_info(c.P[1]['ctype'], S)
+        if not di:
+            return None
+        t, el, vec = di
+        if c.PT[0].ct != t.ct:
+            return None
+        lhs, dn = c.a(0), c.a(1)
+        flds = dict(S[c.P[1]['ctype']])
+        if 'd' in flds:
+            dl = lambda i: t.lane('(%s).d' % dn, i)
+        elif flds.get('m', '').startswith('Denom_'):
+            st = T(ELEM[el][2], S)
+            dl = lambda i: st.lane('(%s).m.d' % dn, 0)
+        else:
+            return None
+        sp = ('spec_sdiv' if c.name == 'operator/=' else 'spec_srem') if t.signed else ('spec_udiv' if c.name == 'operator/=' else 'spec_urem')
+        ens = []
+        for i in range(t.W):
+            ol = re.sub(r'\(\*%s\)' % re.escape(c.P[0]['name']), OLD('(*%s)' % c.P[0]['name']), t.lane(lhs, i))
+            g = 'spec_div_defined(%s, %s, %d, %d)' % (ol, dl(i), t.bits, t.signed)
+            ens.append(('%s lane %d' % (c.name, i), '!%s || %s == %s(%s, %s, %d)' % (g, t.lane(lhs, i), sp, ol, dl(i), t.bits)))
+        ens.append(('returns the left operand', '%s == %s' % (RV, c.P[0]['name'])))
+        req = ['spec_div_defined(%s, %s, %d, %d)' % (t.lane(lhs, 0), dl(0), t.bits, t.signed)] if t.W == 1 and not vec else []
+        k = Contract('denom_' + c.name, ['C14'] if not vec else ['C15'], requires=req, ensures=ens, assigns=['*%s' % c.P[0]['name']], cxx=None, flags=['div'])
+        ctor = find_ctor(c.db, c.P[1]['ctype'], [t.ct])
+        if not ctor:
+            return None
+        k.extra_roots = [ctor]
+        k.denom = {'t': t, 'vec': vec, 'ctor': ctor, 'dct': c.P[1]['ctype'], 'nct': t.ct, 'lhs_ref': True}
+        if t.bits > 8 or t.W > 1:
+            k.partial = 'one obligation per divisor d of the lattice {%s} (mod 2^%d); all numerators' % (', '.join(str(v) for v in denom_lattice(t)), t.bits)
+        if vec:
+            sct = 'Denom_' + el
+            bc = find_ctor(c.db, c.P[1]['ctype'], [sct])
+            sc = find_ctor(c.db, sct, [ELEM[el][2]])
+            if bc and sc:
+                k.denom['broadcast'] = (bc, sc)
+                k.extra_roots += [bc, sc]
+        return k
     if c.kind == 'method' and c.name == 'value' and fn.get('owner', '').startswith('Denom_') and not c.P:
         di = denom_info(fn['owner'], S)
         if not di:
@@ -1249,7 +1318,7 @@ def denom_variants(k, tier):
                 pre += ['%s a1 = %s(dv);' % (d['dct'], d['ctor'])]
         else:
             pre += ['%s a1 = %s((%s)%s);' % (d['dct'], d['ctor'], sct, dexprs[0])]
-        c.harness = {'pre': pre, 'args': ['a0', 'a1']}
+        c.harness = {'pre': pre, 'args': ['&a0' if d.get('lhs_ref') else 'a0', 'a1']}
         c.part = label
         return c
 
@@ -1472,3 +1541,12 @@ PROPERTY_NAMES = {
 
 def name_in_property(name, prop):
     return name in PROPERTY_NAMES.get(prop, ())
+
+
+def looks_like_api(fn, db):
+    """a function whose name belongs to some property and whose signature involves AVEL vector / mask / denominator /
+    allocator types or arithmetic scalars: if no family claims it, it is a coverage gap worth reporting"""
+    if fn.get('error') or not any(fn.get('name') in v for v in PROPERTY_NAMES.values()):
+        return False
+    cts = [p['ctype'] for p in fn.get('params', [])] + [fn.get('owner') or '', fn.get('ret') or '']
+    return any(re.match(r'^(Vec|Mask|Denom|Alloc)_', x.rstrip('*')) for x in cts)
